@@ -8,6 +8,7 @@ throughout, equal Booleans, and byte equality right after any push of a non-empt
 import TypedPathVerif.Spec.StdBuf
 import TypedPathVerif.Props.C04
 import TypedPathVerif.Props.C09
+import TypedPathVerif.Props.C13
 
 namespace TP.C07
 
@@ -129,6 +130,48 @@ theorem pop_step (m s : Bytes) (h : I m s) :
       conv => rhs; rw [hr]
       simp [List.take_append]
 
+theorem lastCompEnd_trailing_sep (m : Bytes) : lastCompEnd .unix (m ++ [SLASH]) = lastCompEnd .unix m := by
+  unfold lastCompEnd
+  have htoks : toks usep (m ++ [SLASH]) = toks usep m ++ [.sep SLASH] := toks_append_sep_end usep m SLASH usep_slash
+  simp only [Enc.new, htoks, skipBack_append_junk false (toks usep m) (.sep SLASH) (by rfl)]
+  rfl
+
+/-- `set_extension` does not see a trailing separator -/
+theorem setExtension_trailing_sep (m x : Bytes) (hm : m ≠ []) :
+    stdStep (m ++ [SLASH]) (.setExtension x) =
+      (match fileName .unix m with
+       | some _ => setExtension .unix m x
+       | none => (m ++ [SLASH], false)) := by
+  simp only [stdStep]
+  have hfn := fileName_trailing_sep m hm
+  have hfs : fileStem .unix (m ++ [SLASH]) = fileStem .unix m := by unfold fileStem; rw [hfn]
+  rw [hfn, hfs, lastCompEnd_trailing_sep]
+  cases hf : fileName .unix m with
+  | none => rfl
+  | some f =>
+    obtain ⟨st, rest, hst, hfe, _⟩ := C13.rsplitDot_stem_prefix f
+    have hstem : fileStem .unix m = some st := by simp only [fileStem, hf]; exact hst
+    simp only [hstem, setExtension, hf]
+    -- the cut lies inside `m`
+    obtain ⟨r, j, hts, _, hsb⟩ := C13.fileName_tokens .unix m f hf
+    have hcut0 : lastCompEnd .unix m = (untoks r ++ f).length := by
+      unfold lastCompEnd
+      simp only [hsb]
+      simp [C09.untoks_append, untoks, Tok.bytes, Enc.new, PState.preBytes]
+    have hmlen : (untoks r ++ f).length ≤ m.length := by
+      have := new_remaining .unix m
+      simp only [PState.remaining, PState.preBytes, Enc.new, List.nil_append] at this
+      have hts' : toks usep m = r ++ [.seg f] ++ j := hts
+      rw [hts', C09.untoks_append, C09.untoks_append] at this
+      rw [← this]
+      simp [untoks, Tok.bytes]
+    have hle : lastCompEnd .unix m - f.length + st.length ≤ m.length := by
+      rw [hcut0]
+      have : st.length ≤ f.length := by rw [hfe]; simp
+      simp only [List.length_append] at hmlen ⊢
+      omega
+    rw [List.take_append_of_le_length hle]
+
 theorem step_preserves (m s : Bytes) (op : Op) (h : I m s) :
     I (modelStep m op).1 (stdStep s op).1 ∧ (modelStep m op).2 = (stdStep s op).2 := by
   cases op with
@@ -145,6 +188,24 @@ theorem step_preserves (m s : Bytes) (op : Op) (h : I m s) :
     cases hf : (fileName .unix m).isSome with
     | true => exact (push_step _ _ n (pop_step m s h).1).1
     | false => exact (push_step m s n h).1
+  | setExtension x =>
+    rcases h with h | ⟨h, hm, hl⟩
+    · subst h
+      have : stdStep s (.setExtension x) = setExtension .unix s x := by
+        simp only [stdStep, setExtension]
+        cases fileName .unix s with
+        | none => rfl
+        | some f => cases fileStem .unix s <;> rfl
+      rw [this]
+      exact ⟨Or.inl rfl, rfl⟩
+    · subst h
+      rw [setExtension_trailing_sep m x hm]
+      simp only [modelStep]
+      cases hf : fileName .unix m with
+      | some f => exact ⟨Or.inl rfl, rfl⟩
+      | none =>
+        rw [C13.set_ext_false .unix m x hf]
+        exact ⟨Or.inr ⟨rfl, hm, hl⟩, rfl⟩
 
 /-- two result lists are related position by position -/
 def Related : List (Bytes × Bool) → List (Bytes × Bool) → Prop
